@@ -132,8 +132,8 @@ def decide(pid, tier, seed):
         return decide_c17(tier, seed)
     known = load_known()
     notes = []
-    quarantined = []
-    for _round in range(4):
+    quarantined = {}
+    for _round in range(7):
         g = P.generate(quarantined=quarantined)
         gi = P.GenIndex(g["gen_text"])
         r = P.run_verus(g["gen_path"], g["gen_text"], label="main")
@@ -143,19 +143,30 @@ def decide(pid, tier, seed):
         bad = set()
         for t in tools:
             f = gi.func_at(t["line"]) if t["line"] else None
-            changed_code = f is not None and g["splice"]["functions"].get(f["name"], {}).get("status") in ("transplanted", "quarantined")
+            changed_code = f is not None and g["splice"]["functions"].get(f["name"], {}).get("status") in ("transplanted", "quarantined", "uncontracted")
             if f and f["mode"] == "exec" and not f["external_body"] and (changed_code or "not supported" in t["message"]
                                                                           or "unsupported" in t["message"].lower()
                                                                           or "does not yet support" in t["message"]):
                 # either Verus cannot read a construct of the body, or the body changed so much that
                 # the ghost text no longer fits it (a ghost name is out of scope, a type no longer matches)
-                bad.add(f["name"])
+                bad.add((f["name"], t["line"] < f["body_line"]))
         if not bad or not tools:
             break
-        quarantined = sorted(set(quarantined) | bad)
-    if quarantined:
-        notes.append("functions taken out because Verus cannot read their bodies (unsupported construct): " + ", ".join(quarantined))
-        # (properties tagged on a quarantined function are decided by the witness step below, or stay undecided)
+        progressed = False
+        for name, in_header in bad:
+            cur = quarantined.get(name, 0)
+            new_level = 2 if (in_header or cur >= 1) else 1
+            if new_level > cur:
+                quarantined[name] = new_level
+                progressed = True
+        if not progressed:
+            break
+    # functions whose body (level 1) or whole contract (level 2) could not be kept: the properties they carry
+    lost = {n: v.get("props", []) for n, v in g["splice"]["functions"].items() if v["status"] in ("quarantined", "uncontracted")}
+    if lost:
+        notes.append("functions taken out of verification (unsupported construct, or ghost text / contract no longer fits the changed code): "
+                     + ", ".join("%s[%s]" % (n, g["splice"]["functions"][n]["status"]) for n in lost))
+        # (properties tagged on such a function are decided by the witness step below, or stay undecided)
     # a caller of a function that has no contract cannot be blamed for what it can no longer prove
     unc = [u.split("::")[-1] for u in g["splice"].get("uncontracted", [])]
     if unc:
@@ -271,7 +282,8 @@ def decide(pid, tier, seed):
             raise P.Undecided("proof unstable under a different solver seed/rlimit: " + ", ".join(thorough_extra["unstable"]))
         mine += thorough_extra.get("failures", [])
     # ---- witness step: only when the verifier has failed something on this tree
-    any_fail = fails + undischarged + [{"obligation": "function %s could not be read by the verifier" % q} for q in quarantined]
+    any_fail = fails + undischarged + [{"obligation": "function %s could not be verified against its contract" % q} for q in lost]
+    any_fail += [{"obligation": "function %s of /repo has no contract" % q} for q in g["splice"].get("uncontracted", []) if q not in lost]
     witness = None
     explore_cov = {}
     weak_only = False
@@ -303,7 +315,7 @@ def decide(pid, tier, seed):
         report = [({"obligation": (specific or violations or any_fail)[0]["obligation"]}, pth, True)]
     elif specific:
         report = [(x, write_replay(pid, n, x), False) for n, x in enumerate(specific)]
-    elif violations or any(q for q in quarantined if any(f["name"] == q and pid in f["props"] for f in gi.funcs)):
+    elif violations or any(pid in pr for pr in lost.values()):
         weak_only = True
     violations = [r[0] for r in report]
     replay_paths = [r[1] for r in report]
